@@ -15,10 +15,12 @@
      Phi, BinOp), conversions that do not read memory (ChangeType, ChangeInterface, MakeInterface, SliceToArrayPointer,
      Slice of a slice value or of *array), allocations, control flow and calls to functions (whose bodies are analysed in
      their own contexts) do not dereference.
-   - mem_access_full adds the kinds that dereference an operand and are NOT instructions with a callee body:
-       Call of builtin append/copy/delete/clear/len/cap (on map, chan), close     read or write through Args
+   - kinds that dereference an operand and are NOT instructions with a callee body (in mem_access_spec since fix 913f0a4;
+     the pinned tree classified them as always Local, confirmed with the race detector):
+       Call of builtin append/copy/delete/clear/close, len/cap (on map, chan)     read or write through Args
        Convert []byte/[]rune -> string                                             reads the slice's backing array
-     The pinned tree classifies these as always Local (confirmed with the race detector, see known_findings.txt). *)
+     The table abstracts from the operand-type filter inside the builtin case (slices, maps and channels only; len/cap
+     skip slices, whose header is a value): that part is covered by the race-detector scenarios. *)
 From Coq Require Import List String Bool.
 Import ListNotations.
 Open Scope string_scope.
@@ -54,10 +56,12 @@ Definition table_verdict (t : list (string * string * lverdict)) (dflt : lverdic
 Definition mem_access_spec : list (string * string * string) :=
   [("Store", "", "Addr"); ("UnOp", "MUL", "X"); ("UnOp", "ARROW", "X"); ("Send", "", "Chan");
    ("MapUpdate", "", "Map"); ("Lookup", "", "X"); ("Range", "Map", "X"); ("Next", "", "Iter");
-   ("Select", "each", "States.Chan")].
-
-(* kinds that access memory through an operand without being covered by a callee context *)
-Definition mem_access_uncovered : list (string * string) := [("Call", "builtin"); ("Convert", "slice->string")].
+   ("Select", "each", "States.Chan");
+   (* instructions without a callee body that dereference an operand: builtin calls and []byte/[]rune -> string *)
+   ("Call", "builtin&name=append", "Call.Args.arg"); ("Call", "builtin&name=copy", "Call.Args.arg");
+   ("Call", "builtin&name=delete", "Call.Args.arg"); ("Call", "builtin&name=clear", "Call.Args.arg");
+   ("Call", "builtin&name=close", "Call.Args.arg"); ("Call", "builtin&name=len", "Call.Args.arg");
+   ("Call", "builtin&name=cap", "Call.Args.arg"); ("Convert", "Slice", "X")].
 
 Definition guarded_or_nonlocal (v : lverdict) (op : string) : bool :=
   match v with
